@@ -69,8 +69,9 @@ class EllipticalArc(NamedTuple):
         point_transform = Affine2D.identity().rotate(-angle)
 
         transformed_mid_point = point_transform.map_vector(mid_point_distance)
-        rx = self.rx
-        ry = self.ry
+        # negative radii are made positive (the sign must not mirror the arc)
+        rx = fabs(self.rx)
+        ry = fabs(self.ry)
         square_rx = rx * rx
         square_ry = ry * ry
         square_x = transformed_mid_point.x * transformed_mid_point.x
@@ -80,9 +81,8 @@ class EllipticalArc(NamedTuple):
         if radii_scale > 1:
             rx *= sqrt(radii_scale)
             ry *= sqrt(radii_scale)
-            return self._replace(rx=rx, ry=ry)
 
-        return self
+        return self._replace(rx=rx, ry=ry)
 
     # https://www.w3.org/TR/SVG/implnote.html#ArcConversionEndpointToCenter
     def end_to_center_parametrization(self) -> CenterParametrization:
